@@ -372,10 +372,11 @@ long World::on_writev(KFd &k, const struct iovec *iov, int cnt) {
 	Client &cl = *clp;
 	size_t total = 0; for (int i = 0; i < cnt; i++) total += iov[i].iov_len;
 	cl.write_attempts_turn++;
-	if (cl.wr_err) { errno = cl.wr_err; probe("fault:write_error"); trace.tag("w-err"); return -1; }
-	if (cl.client_closed && cl.wr_fail_after_close) { errno = EPIPE; probe("fault:write_epipe"); trace.tag("w-epipe"); return -1; }
+	c10_offer(cl, iov, cnt);
+	if (cl.wr_err) { c10_result(cl, -1, cl.wr_err); errno = cl.wr_err; probe("fault:write_error"); trace.tag("w-err"); return -1; }
+	if (cl.client_closed && cl.wr_fail_after_close) { c10_result(cl, -1, EPIPE); errno = EPIPE; probe("fault:write_epipe"); trace.tag("w-epipe"); return -1; }
 	if (total == 0) return 0;
-	if (cl.space == 0) { cl.blocked = true; errno = EAGAIN; probe("fault:would_block"); trace.tag("w-eagain"); return -1; }
+	if (cl.space == 0) { c10_result(cl, -1, EAGAIN); cl.blocked = true; errno = EAGAIN; probe("fault:would_block"); trace.tag("w-eagain"); return -1; }
 	size_t m = total;
 	if (cl.space > 0 && (size_t)cl.space < m) m = (size_t)cl.space;
 	if (cl.wcap && m > cl.wcap) m = cl.wcap;
@@ -389,6 +390,8 @@ long World::on_writev(KFd &k, const struct iovec *iov, int cnt) {
 	res.st.bytes_out += m;
 	scan_secret("connection output", acc.data(), acc.size());
 	cl.out += acc;
+	c10_result(cl, (long)m, 0);
+	c10_accept(cl, acc.data(), acc.size());
 	std::vector<Frame> fr;
 	cl.od.feed(acc.data(), acc.size(), fr);
 	if (!fr.empty()) on_frames(cl, fr);
